@@ -106,6 +106,17 @@ func (propC01) Gen(r *Rng, tier string) *World {
 			w.Calls = append(w.Calls, q)
 		}
 	}
+	if w.API != "oneshot" && r.P(0.2) {
+		// a fetcher with a cold cache (Cached says no, Get loads): evaluation
+		// does not depend on what is cached
+		for i := range w.Calls {
+			for _, v := range w.Cfg.Vars {
+				if r.P(0.4) {
+					w.Calls[i].Unavail = append(w.Calls[i].Unavail, v.Name)
+				}
+			}
+		}
+	}
 	w.EnumFaults = r.P(0.6)
 	// random multi-fault plans: their fault positions are drawn against an
 	// estimate of the call count; positions beyond the actual count never fire
